@@ -35,7 +35,10 @@ RULE = ("case = (document IR, rendering = namespace convention x trivia placemen
 ASSUMPTIONS = ["comments/PIs are placed only between element children of element-only content (not inside text-bearing elements)",
                "the caller passes the xtce_ns_prefix that matches the document's convention (None for default namespace / none)"]
 
-STYLES = [("prefix", "xtce"), ("prefix", "custom"), ("prefix", "a"), ("prefix", "ns0"), ("default",), ("none",)]
+# prefixes "of any name": including ones that are a leading substring of (or equal to) XTCE element names
+STYLES = [("prefix", "xtce"), ("prefix", "custom"), ("prefix", "a"), ("prefix", "ns0"), ("default",), ("none",),
+          ("prefix", "U"), ("prefix", "L"), ("prefix", "Seq"), ("prefix", "P"), ("prefix", "Header"), ("prefix", "T"), ("prefix", "C"),
+          ("prefix", "Parameter"), ("prefix", "x-1.2_y")]
 TRIVIA = {"comment": "<!-- c: <xtce:Fake/> -->", "pi": "<?vmon keep?>", "whitespace": "\n\n   \t  \n"}
 
 
@@ -97,6 +100,14 @@ def bad_inputs(rng, doc):
     # semantically broken: a parameter referencing an undefined type
     broken = ir.Doc(doc.types[:7], doc.params[:7] + (ir.Param("BROKEN", "NoSuchType"),), (ir.Container("CCSDSPacket", tuple(("p", p.name) for p in doc.params[:7]) + (("p", "BROKEN"),)),))
     out.append(("dangling-type", render.render_doc(broken, ns_style=("default",)), None))
+    # failures INSIDE ContainerSet parsing, after other container references have already been resolved
+    last = doc.containers[-1]
+    for name, bad in (("bad-paramref-in-last-container", ir.Container("ZZ_Bad", (("p", "NoSuchParameter"),), doc.root, (ir.Comparison("VERSION", "0"),))),
+                      ("bad-containerref-in-last-container", ir.Container("ZZ_Bad", (("c", "NoSuchContainer"),), doc.root, (ir.Comparison("VERSION", "0"),))),
+                      ("bad-base-in-last-container", ir.Container("ZZ_Bad", (), "NoSuchBase", (ir.Comparison("VERSION", "0"),)))):
+        d2 = ir.Doc(doc.types, doc.params, doc.containers + (bad,), doc.root, doc.system_name, doc.date)
+        style = rng.choice([("prefix", "xtce"), ("default",), ("none",), ("prefix", "q")])
+        out.append((name, render.render_doc(d2, ns_style=style), prefix_of(style)))
     return out
 
 
